@@ -3,6 +3,7 @@ package pgen
 import (
 	"fmt"
 	"math/rand"
+	"strings"
 
 	"verif/vref"
 )
@@ -41,6 +42,8 @@ type sgen struct {
 	names  *namePool
 	decls  []*Decl // source decls (for reuse / recursion)
 	arrAssign bool
+	genS, genT *Decl
+	embN int
 }
 
 var basics = []string{"int", "int8", "int16", "int32", "int64", "uint", "uint8", "uint16", "uint32", "uint64", "float32", "float64", "string", "bool", "complex128", "rune", "byte"}
@@ -95,7 +98,7 @@ func (g *sgen) srcType(depth int, kind string) *Type {
 		if depth <= 0 {
 			choices = []string{"basic", "basic", "named"}
 		} else {
-			choices = []string{"basic", "basic", "named", "ptr", "ptr", "slice", "slice", "array", "map", "map", "struct", "struct", "nstruct", "nstruct", "nstruct", "reuse", "nslice", "nmap", "narray"}
+			choices = []string{"basic", "basic", "named", "ptr", "ptr", "slice", "slice", "array", "map", "map", "struct", "struct", "nstruct", "nstruct", "nstruct", "reuse", "nslice", "nmap", "narray", "generic"}
 		}
 		kind = choices[r.Intn(len(choices))]
 	}
@@ -140,6 +143,15 @@ func (g *sgen) srcType(depth int, kind string) *Type {
 		return Named(g.newDecl(g.src, "SL", Slice(g.srcType(depth-1, ""))))
 	case "narray":
 		return Named(g.newDecl(g.src, "SA", Array(1+r.Intn(3), g.srcType(depth-1, ""))))
+	case "generic":
+		// an instantiated generic struct; the target instantiates the mirrored generic declaration
+		if g.genS == nil {
+			g.genS = g.newDecl(g.src, "GS", Struct(F("V", Basic("T")), F("L", Slice(Basic("T"))), F("N", Basic("int"))))
+			g.genS.TypeParams = []string{"T"}
+			g.genT = g.newDecl(g.tgt, "GT", Struct(F("V", Basic("T")), F("L", Slice(Basic("T"))), F("N", Basic("int"))))
+			g.genT.TypeParams = []string{"T"}
+		}
+		return &Type{K: KNamed, Decl: g.genS, Args: []*Type{g.srcType(depth-1, "")}}
 	case "nmap":
 		return Named(g.newDecl(g.src, "SM", Map(g.keyType(), g.srcType(depth-1, ""))))
 	case "reuse":
@@ -186,7 +198,27 @@ func (g *sgen) structType(depth int) *Type {
 		if g.o.SamePkg && g.r.Intn(5) == 0 {
 			name = "u" + name
 		}
-		st.Fields = append(st.Fields, F(name, g.srcType(depth-1, "")))
+		f := F(name, g.srcType(depth-1, ""))
+		if g.r.Intn(6) == 0 {
+			f.Tag = fmt.Sprintf("json:\"%s,omitempty\" db:\"c%d\"", strings.ToLower(name), i)
+		}
+		st.Fields = append(st.Fields, f)
+	}
+	if !g.o.SamePkg && depth > 0 && g.r.Intn(6) == 0 {
+		// an embedded struct: goverter treats it as a field named like the type, so the target embeds
+		// (or declares) a same-named type of its own package
+		g.embN++
+		nm := fmt.Sprintf("Emb%d", g.embN)
+		sd := &Decl{Pkg: g.src, Name: nm, Under: Struct(F("E", Basic("int")), F("G", Slice(Basic("string"))))}
+		g.src.Decls = append(g.src.Decls, sd)
+		td := &Decl{Pkg: g.tgt, Name: nm, Under: Struct(F("E", Basic("int")), F("G", Slice(Basic("string"))))}
+		g.tgt.Decls = append(g.tgt.Decls, td)
+		g.memo[sd] = td
+		ef := &Field{Name: nm, T: Named(sd), Embedded: true}
+		if g.r.Intn(3) == 0 {
+			ef.T = Ptr(Named(sd))
+		}
+		st.Fields = append(st.Fields, ef)
 	}
 	return st
 }
@@ -231,6 +263,9 @@ func (g *sgen) derive(t *Type, assignPos bool, depth int) *Type {
 		}
 		return Basic(t.Basic)
 	case KNamed:
+		if len(t.Args) > 0 {
+			return &Type{K: KNamed, Decl: g.genT, Args: []*Type{g.derive(t.Args[0], true, depth+1)}}
+		}
 		if d, ok := g.memo[t.Decl]; ok {
 			return Named(d)
 		}
@@ -283,7 +318,19 @@ func (g *sgen) deriveUnder(t *Type, depth int) *Type {
 				continue // source-only field
 			}
 			ft := g.deriveField(f.T, depth+1)
-			st.Fields = append(st.Fields, F(f.Name, ft))
+			nf := F(f.Name, ft)
+			if f.Embedded {
+				// stays embedded only when the derived type is still the (pointer to the) same-named declaration
+				base := ft
+				if base.K == KPtr {
+					base = base.Elem
+				}
+				nf.Embedded = base.K == KNamed && base.Decl.Name == f.Name && (ft.K != KPtr || ft.Elem.K == KNamed)
+			}
+			if f.Tag != "" && r.Intn(2) == 0 {
+				nf.Tag = "json:\"other\""
+			}
+			st.Fields = append(st.Fields, nf)
 		}
 		if len(st.Fields) > 1 && r.Intn(3) == 0 {
 			i, j := r.Intn(len(st.Fields)), r.Intn(len(st.Fields))
@@ -348,6 +395,9 @@ func (g *sgen) identicalOK(t *Type) bool {
 		}
 		return true
 	case KNamed:
+		if len(t.Args) > 0 {
+			return false
+		}
 		if g.memo[t.Decl] != nil {
 			return false
 		}
@@ -379,7 +429,7 @@ func (g *sgen) identicalUnder(t *Type, seen map[*Decl]bool) bool {
 			}
 		}
 	case KNamed:
-		if g.memo[t.Decl] != nil {
+		if len(t.Args) > 0 || g.memo[t.Decl] != nil {
 			return false
 		}
 		return g.identicalDecl(t.Decl, seen)
